@@ -186,15 +186,35 @@ func (t *Transport) encodeToWithContextTakeover(wr io.Writer, bs []byte) (int, e
 	t.writeWindowBufMu.Lock()
 	defer t.writeWindowBufMu.Unlock()
 
+	dictLen := t.writeWindowBuf.Len()
 	fwr, err := flate.NewWriterDict(buf, t.compressConfig.Level, t.writeWindowBuf.Bytes())
 	if err != nil {
 		return 0, err
 	}
-	mwr := io.MultiWriter(fwr, t.writeWindowBuf)
-	if _, err := mwr.Write(bs); err != nil {
+	if _, err := fwr.Write(bs); err != nil {
 		return 0, err
 	}
 	if err := fwr.Close(); err != nil {
+		return 0, err
+	}
+	// compress/flate emits the preset dictionary itself when the first block falls back to a
+	// stored block (incompressible data): the peer would read dictionary+message. A stream that
+	// starts with a stored block (BTYPE 00) is therefore re-encoded without the dictionary; the
+	// peer's preset dictionary is then simply not referenced.
+	if dictLen > 0 && buf.Len() > 0 && (buf.Bytes()[0]>>1)&3 == 0 {
+		buf.Reset()
+		pwr, err := flate.NewWriter(buf, t.compressConfig.Level)
+		if err != nil {
+			return 0, err
+		}
+		if _, err := pwr.Write(bs); err != nil {
+			return 0, err
+		}
+		if err := pwr.Close(); err != nil {
+			return 0, err
+		}
+	}
+	if _, err := t.writeWindowBuf.Write(bs); err != nil {
 		return 0, err
 	}
 	if t.compressConfig.WindowSize() < t.writeWindowBuf.Len() {
